@@ -279,3 +279,33 @@ func vh_policy_pool_history() {
 	}
 	vObserve("pools", len(pp.hostConnPools))
 }
+
+// connectMany under the latest-possible schedule of its dial goroutines (spec defer_go: each runs only
+// when connectMany waits): when it returns, every dial it started has finished - the caller ends the
+// filling epoch right afterwards, a dial still in flight would add its connection to a pool that a new
+// epoch is already filling (more connections than configured).
+func vh_connect_many() {
+	p := vNewPool()
+	vLateClose = true
+	vAssume(!p.closed)
+	p.filling = true // this goroutine owns the filling epoch
+	vFillEpochs = 1
+	count := 1 + vChoose("count", 2)
+	vAssume(len(p.conns)+count <= p.size)
+	before := len(p.conns)
+	err := p.connectMany(count)
+	vAssert(vPendingCount() == 0, "C17/pool/connect-many-returns-only-after-every-dial-it-started-has-finished")
+	vAssert(vEventCount("go:") == count, "C17/pool/connect-many-starts-one-dial-per-missing-connection")
+	added := len(p.conns) - before
+	if !p.closed {
+		vAssert(added <= count && len(p.conns) <= p.size, "C17/pool/never-more-than-size")
+		if err == nil {
+			vAssert(added == count, "C17/pool/connect-many-without-error-added-every-connection")
+		}
+	}
+	vRunPending()
+	if !p.closed {
+		vAssert(len(p.conns) <= p.size, "C17/pool/never-more-than-size")
+	}
+	vObserve("added", added)
+}
